@@ -25,7 +25,9 @@ SHARED = ['nsum', 'nsum_alt', 'nsum_geom', 'nsum_fin', 'nsum_levin', 'nsum_geom_
           'zeta_rs_hi', 'siegelz_hi', 'zeta_rs_hi', 'coulombf', 'coulombg', 'coulombc', 'airyai', 'airybi', 'airyaizero', 'besseljzero', 'besselyzero', 'zeta_rs', 'siegelz',
           'zetazero', 'stieltjes', 'quad', 'quadgl', 'hyp2f1', 'hyp1f1', 'besselj', 'zeta', 'zeta_int', 'bernoulli', 'gamma', 'const_pi',
           'const_euler', 'exp', 'ln', 'sin', 'atan', 'erf', 'ellipk', 'lambertw', 'polylog', 'grampoint', 'siegeltheta', 'nzeros',
-          'riemannr', 'primezeta', 'secondzeta', 'backlunds', 'psi', 'factorial', 'loggamma', 'fib', 'det', 'inverse', 'lu_solve', 'expm']
+          'riemannr', 'primezeta', 'secondzeta', 'backlunds', 'psi', 'factorial', 'loggamma', 'fib', 'det', 'inverse', 'lu_solve', 'expm',
+          # the routines that reach into another context through ctx._iv / ctx._fp / ctx._mp, weighted
+          'primepi2', 'primepi2', 'primepi2', 'zetazero', 'nzeros', 'zeta_rs_hi', 'siegelz_hi']
 EXCLUDE = frozenset(['rand', 'randmatrix'])
 # primepi2 returns an interval of the iv context by specification (its result depends on iv.prec: see DESIGN): it is
 # executed - it is the one mixin routine that reaches into another context - but its result is not compared
@@ -383,7 +385,8 @@ class _Gen(object):
         kind = 'mp' if actor in ('mp', 'c1', 'c2') else actor
         ents = [e for e in catalogue.entries(ctx=kind, maxcost=self.maxcost) if e.key not in EXCLUDE]
         if self.rng.random() < self.shared_bias:
-            sh = [e for e in ents if e.key in SHARED]
+            allowed = dict((e.key, e) for e in ents)
+            sh = [allowed[k] for k in SHARED if k in allowed]      # repeated keys in SHARED weigh more
             if sh:
                 return sh
         return ents
